@@ -274,9 +274,17 @@ func c07Family(name string) int {
 }
 
 func c07Check(tmpl string) {
-	stA := vrtChoice("stateA", 2)
+	nst := 2
+	if vrtParam("PHRASEVALS", 0) == 1 {
+		// the value of a variable may itself look like a template, and refer to its own name: it is inserted as it is
+		nst = 5
+	}
+	stA := vrtChoice("stateA", nst)
 	valA := ""
-	if stA == 1 {
+	if stA >= 2 {
+		valA = []string{"${A:-y}", "$A", "${_:?e}"}[stA-2]
+		stA = 1
+	} else if stA == 1 {
 		alpha := "x$ "
 		if vrtParam("RICH", 0) == 1 {
 			alpha = "x${}_"
